@@ -277,13 +277,19 @@ func dbu(c *ctx, req []byte, sizes []int, cfg ucfg, setReq, setResp bool) {
 	if dbuExtra != nil {
 		defer dbuExtra(c, req, sizes, cfg, setReq, setResp)
 	}
+	dbuW(c, 0, req, sizes, cfg, setReq, setResp)
+}
+
+// wbuf > 0: kind DBUW, the Upgrader writes through a buffer of wbuf bytes, so a response longer than that reaches
+// the connection in several writes
+func dbuW(c *ctx, wbuf int, req []byte, sizes []int, cfg ucfg, setReq, setResp bool) {
 	// un-wrapped reference
 	ref := &chunkConn{chunks: splitSizes(req, sizes), tail: io.EOF}
-	rhs, rerr := cfg.upgrader(0, 0).Upgrade(ref)
+	rhs, rerr := cfg.upgrader(0, wbuf).Upgrade(ref)
 	conn := &chunkConn{chunks: splitSizes(req, sizes), tail: io.EOF}
 	var gotReq, gotResp []byte
 	nReq, nResp := 0, 0
-	d := wsutil.DebugUpgrader{Upgrader: cfg.upgrader(0, 0)}
+	d := wsutil.DebugUpgrader{Upgrader: cfg.upgrader(0, wbuf)}
 	if setReq {
 		d.OnRequest = func(p []byte) { nReq++; gotReq = append([]byte(nil), p...) }
 	}
@@ -302,7 +308,11 @@ func dbu(c *ctx, req []byte, sizes []int, cfg ucfg, setReq, setResp bool) {
 		hs = h
 		cls = upgradeErrClass(err)
 	}()
-	c.emit("DBU %s %s %s %d %d -> %s %s %s %s %s %s %s %s %d %s %d %s", hx(req), encInts(sizes), cfg.tokens(), b2i(setReq), b2i(setResp),
+	kind := "DBU"
+	if wbuf > 0 {
+		kind = "DBUW " + strconv.Itoa(wbuf)
+	}
+	c.emit(kind+" %s %s %s %d %d -> %s %s %s %s %s %s %s %s %d %s %d %s", hx(req), encInts(sizes), cfg.tokens(), b2i(setReq), b2i(setResp),
 		upgradeErrClass(rerr), hx([]byte(rhs.Protocol)), encOpts(rhs.Extensions), hx(ref.out.Bytes()),
 		cls, hx([]byte(hs.Protocol)), encOpts(hs.Extensions), hx(conn.out.Bytes()), nReq, hx(gotReq), nResp, hx(gotResp))
 }
